@@ -19,9 +19,16 @@ read from a probe run of the uninterrupted plan).
                * run(until=ev): an already processed event -> its value at once, nothing processed; otherwise returns the
                  event's value in the step that processes it (the last step of the call); a failed event -> its exception;
                  agenda exhausted first -> RuntimeError and the event is still untriggered;
-  extra_checks  reproducibility of the implementation: a sample of bundles is re-run in fresh interpreter processes under
-                2 (quick) / 16 (thorough) PYTHONHASHSEED values; all canonical observations must be identical to the in-process
-                one (checked, not proved)."""
+  extra_checks  reproducibility of the implementation (checked, not proved):
+                (a) kernel programs: a sample of bundles is re-run in fresh interpreter processes under 2 (quick) / 16 (thorough)
+                    PYTHONHASHSEED values; all canonical observations must be identical to the in-process one;
+                (b) network scenarios (the case streams of the element parts wire, port, bucket, mq, drr, wfq): every sampled
+                    scenario is executed in fresh interpreters (several PYTHONHASHSEED values) and, in THIS interpreter, again
+                    and again after executions of the same part that were stopped midway (the element harness is made to stop
+                    after k steps, k inside the run -- a run(until=t) / step budget); every in-process observation must equal the
+                    fresh-interpreter one: nothing may survive from one Environment to the next (class-level mutable state,
+                    module globals, caches).  Signature network-not-reproducible; the replay is a case of kind "netrepro"
+                    (part, scenario, the polluting scenarios, their step budgets)."""
 import hashlib
 import json
 import os
@@ -109,6 +116,113 @@ def seed_digests(cases, seed):
                        cwd=VERIF)
     if p.returncode != 0:
         return ["error:subprocess rc=%d %s" % (p.returncode, p.stderr[-300:])] * len(cases)
+    return json.loads(p.stdout.strip().splitlines()[-1])["digests"]
+
+
+# ----------------------------------------------------------------------------------------------------
+# network scenarios: the same program executed again in an interpreter that has already run (and stopped midway) other
+# simulations must give the trace a fresh interpreter gives -- nothing may survive from one Environment to the next
+
+NET_PARTS = ["wire", "port", "bucket", "mq", "drr", "wfq"]
+_NET = {}
+
+
+def net_parts():
+    """the element parts that can be imported (props/part_<name>.py, protocol of vlib/composite.py)"""
+    import importlib
+    if not _NET:
+        _NET["parts"], _NET["skipped"] = {}, []
+        for n in NET_PARTS:
+            try:
+                _NET["parts"][n] = importlib.import_module("props.part_" + n).PART
+            except BaseException as e:
+                _NET["skipped"].append(f"{n}: {type(e).__name__}: {str(e)[:80]}")
+    return _NET["parts"]
+
+
+def net_run(part, case):
+    try:
+        return digest(net_parts()[part].run_impl(case))
+    except BaseException as e:
+        return "error:" + type(e).__name__ + ":" + str(e)[:200]
+
+
+class truncated:
+    """inside the block every element harness run stops after k steps: a simulation stopped midway, like run(until=t)"""
+
+    def __init__(self, k):
+        self.k = k
+
+    def __enter__(self):
+        from props import elem_common as ec
+        self.ec, self.orig, k = ec, ec.Harness.run, self.k
+
+        def run(h, max_steps=20000, until=None):
+            return self.orig(h, min(max_steps, k), until)
+        ec.Harness.run = run
+
+    def __exit__(self, *a):
+        self.ec.Harness.run = self.orig
+
+
+def net_steps(part, case):
+    """number of kernel steps the element harness makes in a complete execution of the case (0 if it cannot be counted)"""
+    from props import elem_common as ec
+    orig, cnt = ec.Harness.run, [0]
+
+    def run(h, max_steps=20000, until=None):
+        real = h.env.step
+
+        def step():
+            cnt[0] += 1
+            return real()
+        h.env.step = step
+        try:
+            return orig(h, max_steps, until)
+        finally:
+            h.env.step = real
+    ec.Harness.run = run
+    try:
+        net_parts()[part].run_impl(case)
+    except BaseException:
+        pass
+    finally:
+        ec.Harness.run = orig
+    return cnt[0]
+
+
+def net_rounds(part, case, polluters, ks):
+    """for every (polluter, k): an execution of the polluter stopped after k steps (result thrown away), then a complete
+    execution of `case`; returns the digests of the complete executions"""
+    out = []
+    for c, k in zip(polluters, ks):
+        with truncated(k):
+            try:
+                net_parts()[part].run_impl(c)
+            except BaseException:
+                pass
+        out.append(net_run(part, case))
+    return out
+
+
+_NET_SUB = r"""
+import sys, json
+from props import c03
+items = json.load(sys.stdin)
+print(json.dumps({"digests": [c03.net_run(p, c) for p, c in items]}))
+"""
+
+
+def net_reference(items, seed):
+    """digests of the observations of (part, case) items, each computed in ONE fresh interpreter under PYTHONHASHSEED=seed
+    that runs the items in order -- complete executions only"""
+    env = dict(os.environ)
+    env["PYTHONHASHSEED"] = str(seed)
+    env["PYTHONPATH"] = REPO + os.pathsep + VERIF
+    p = subprocess.run([PY, "-c", _NET_SUB], input=json.dumps(items), capture_output=True, text=True, env=env, timeout=1800,
+                       cwd=VERIF)
+    if p.returncode != 0:
+        return ["error:subprocess rc=%d %s" % (p.returncode, p.stderr[-300:])] * len(items)
     return json.loads(p.stdout.strip().splitlines()[-1])["digests"]
 
 
@@ -569,7 +683,11 @@ class C03(Prop):
                     "CPython generator semantics and heapq are modelled, not verified",
                     "reproducibility across interpreter processes and PYTHONHASHSEED values is CHECKED on a sample of every run "
                     "(extra_checks), not proved: the model has no hash, id() or clock, so whole-trace agreement with it under any "
-                    "seed means independence from the seed"]
+                    "seed means independence from the seed",
+                    "network scenarios: reproducibility in the same interpreter after stopped executions, and across fresh "
+                    "interpreters / hash seeds, is CHECKED on the element parts' case streams (36 scenarios x 8 rounds quick, 400 "
+                    "thorough; harnesses props/elem_common.py and props/part_*.py), not proved: the element models are "
+                    "single-Environment automata and say nothing about state shared between Environments"]
     assumptions = ["process bodies do not call env.run()/step() re-entrantly; split plans contain no module-level code between stop "
                    "points (the uninterrupted run has no place for it)",
                    "the clauses about what a single run(until=...) returns assume that no earlier run(until=...) of the same "
@@ -583,6 +701,9 @@ class C03(Prop):
     partial = ["reproducibility of the IMPLEMENTATION in another interpreter process / under any PYTHONHASHSEED is checked on a sample "
                "of every run (extra_checks: fresh interpreters, 2 seeds quick / 16 thorough), not proved; the model is a Coq function "
                "(C03_run_deterministic)",
+               "'executing the same program twice in the same interpreter' for NETWORK scenarios (elements keeping state outside "
+               "their Environment) is checked by extra_checks on the element parts' scenarios after stopped executions, not proved; "
+               "split transparency is proved for kernel programs, the network elements being kernel programs of this kind",
                "C03_split_transparent (all stop points) is proved for parametric programs: automata that treat event ids as opaque "
                "tokens and do not call env.peek() (Kernel/StopRen.v; every script-compiled program without peek is: "
                "C03_scripts_parametric) -- in the model an event is a number and an arbitrary Coq automaton could compute with it; "
@@ -603,6 +724,10 @@ class C03(Prop):
         return bundle_of(rng, kc.gen_case(rng, KNOBS))
 
     def run_impl(self, case):
+        if case.get("kind") == "netrepro":
+            # reference first (fresh interpreter, the case alone), then: truncated runs in THIS process, then the case again
+            ref = net_reference([[case["part"], case["case"]]], case.get("seed", 1))[0]
+            return {"runs": [], "ref": ref, "digests": net_rounds(case["part"], case["case"], case["polluters"], case["ks"])}
         if case.get("kind") == "hashseed":
             o = run_bundle(case["bundle"])
             o["digest"] = digest({"runs": o["runs"]})
@@ -623,6 +748,8 @@ class C03(Prop):
         return case
 
     def agree_term(self, case, obs):
+        if case.get("kind") == "netrepro":
+            return None                                  # no kernel-script model run: the element parts have their own
         c = self._norm(case)
         terms = [kc.agree_term(sub_case(c, i), o) for i, o in enumerate(obs["runs"])]
         out = "true"
@@ -631,11 +758,21 @@ class C03(Prop):
         return out
 
     def model_term(self, case):
+        if case.get("kind") == "netrepro":
+            return None
         c = self._norm(case)
         return "(" + ",\n ".join(kc.model_term(sub_case(c, i)) for i in range(len(c["plans"]))) + ")"
 
     # ---- the property, as an oracle over what the implementation did -----------------------------------
     def monitor(self, case, obs):
+        if case.get("kind") == "netrepro":
+            for i, d in enumerate(obs["digests"]):
+                if d != obs["ref"]:
+                    return [f"network-not-reproducible: part {case['part']}: executed after {i + 1} execution(s) of the same part that were "
+                            f"stopped after {case['ks'][:i + 1]} steps in this interpreter, the scenario gives observation {d[:40]}; a fresh "
+                            f"interpreter (PYTHONHASHSEED={case.get('seed', 1)}) gives {obs['ref'][:40]}: something survives from one "
+                            f"simulation to the next"]
+            return []
         msgs = []
         runs = obs["runs"]
         for ri, run in enumerate(runs):
@@ -671,6 +808,8 @@ class C03(Prop):
         return out
 
     def nontrivial(self, case, obs):
+        if case.get("kind") == "netrepro":
+            return True
         runs = obs["runs"]
         if not kc.nontrivial(None, runs[0]):
             return False
@@ -682,6 +821,15 @@ class C03(Prop):
         return False
 
     def shrink(self, case):
+        if case.get("kind") == "netrepro":
+            ps, ks = case["polluters"], case["ks"]
+            for i in range(len(ps) - 1, -1, -1):
+                if len(ps) > 1:
+                    yield {**case, "polluters": ps[:i] + ps[i + 1:], "ks": ks[:i] + ks[i + 1:]}
+            for i, k in enumerate(ks):
+                if k > 4:
+                    yield {**case, "ks": ks[:i] + [k // 2] + ks[i + 1:]}
+            return
         if case.get("kind") == "hashseed" or "plans" not in case:
             return
         plans = case["plans"]
@@ -712,6 +860,8 @@ class C03(Prop):
                 yield c
 
     def describe(self, case, obs):
+        if case.get("kind") == "netrepro":
+            return ["network-rerun-" + case["part"]]
         c = self._norm(case)
         keys = set(kc.describe(sub_case(c, 0), obs["runs"][0]))
         keys = {k for k in keys if not k.startswith("plan-")}
@@ -752,6 +902,53 @@ class C03(Prop):
 
     # ---- reproducibility across interpreter processes / hash seeds ---------------------------------------
     def extra_checks(self, rng, tier):
+        v1, st1 = self._hashseed_checks(rng, tier)
+        v2, st2 = self._network_checks(rng, tier)
+        st1.update(st2)
+        return v1 + v2, st1
+
+    def _network_checks(self, rng, tier):
+        """network scenarios (the element parts' case streams): in-process execution after truncated executions of the same
+        part == execution in a fresh interpreter, under several PYTHONHASHSEED values"""
+        parts = net_parts()
+        n_total = 36 if tier == "quick" else 400
+        seeds = [1, 4242] if tier == "quick" else [0, 1, 7, 4242]
+        per = max(1, n_total // max(1, len(parts)))
+        items = []                                            # (part, case, polluters, ks)
+        for name in sorted(parts):
+            try:
+                cases = [parts[name].gen_case(rng, tier, "C08") for _ in range(per + 2)]
+            except BaseException as e:
+                _NET["skipped"].append(f"{name}: gen_case {type(e).__name__}: {str(e)[:80]}")
+                continue
+            steps = [net_steps(name, c) for c in cases]
+            for i in range(per):
+                idx = [i, i, (i + 1) % len(cases), (i + 2) % len(cases)] + [rng.choice([i, (i + 1) % len(cases), (i + 2) % len(cases)]) for _ in range(4)]
+                rng.shuffle(idx)
+                pol = [cases[j] for j in idx]
+                # stopped anywhere inside the run, mostly in its busy middle part
+                ks = [max(1, int(steps[j] * (rng.uniform(0.1, 0.9) if rng.random() < 0.8 else rng.random()))) if steps[j] else rng.randint(3, 60)
+                      for j in idx]
+                items.append((name, cases[i], pol, ks))
+        refs = {s: net_reference([[p, c] for p, c, _, _ in items], s) for s in seeds}
+        violations, bad, errs = [], 0, 0
+        for i, (name, c, pol, ks) in enumerate(items):
+            ds = net_rounds(name, c, pol, ks)
+            if all(d.startswith("error:") for d in ds) and all(refs[s][i] == ds[0] for s in seeds):
+                errs += 1                                     # the part's own harness fails on this case everywhere: not our subject
+                continue
+            diff = [s for s in seeds if any(refs[s][i] != d for d in ds)]
+            if diff:
+                bad += 1
+                case = {"kind": "netrepro", "part": name, "case": c, "polluters": pol, "ks": ks, "seed": diff[0]}
+                obs = {"runs": [], "ref": refs[diff[0]][i], "digests": ds}
+                violations.append((case, obs, (self.monitor(case, obs) or ["network-not-reproducible: fresh interpreters disagree"])[0]))
+        stats = {"network_rerun_parts": sorted(parts), "network_rerun_parts_skipped": list(_NET.get("skipped", [])),
+                 "network_rerun_cases": len(items), "network_rerun_truncated_runs": sum(len(x[2]) for x in items),
+                 "network_rerun_hashseeds": seeds, "network_rerun_harness_errors": errs, "network_rerun_differences": bad}
+        return violations[:2], stats
+
+    def _hashseed_checks(self, rng, tier):
         seeds = [1, 4242] if tier == "quick" else [0, 1, 2, 3, 7, 11, 42, 99, 1234, 4242, 31337, 65535, 100003, 2 ** 31 - 1, 2 ** 32 - 1, 123456789]
         n = 40 if tier == "quick" else 200
         bundles = [self.gen_case(rng, tier) for _ in range(n)]
